@@ -17,6 +17,33 @@ def rdOptTbl : Rd (Option Rx) := do
 
 def rdDK : Rd (Rx × Option Rx) := do let d ← rdTbl; let k ← rdOptTbl; pure (d, k)
 
+/-- which way the hypothesis `PruneH` of prune_spec_frames_partial fails for a sample (root-first
+ids): 0 holds, 1 family A (first user location shares its location with a match), 2 family B
+(root-most line matches, an inner line does not).  `leadFamily = 0 ↔ leadOK`. -/
+def leadFamily (cls : Nat → LocClass) (allm : Nat → Bool) : List Nat → Nat
+  | [] => 0
+  | id :: r =>
+    match cls id with
+    | .user => 0
+    | .whole => if allm id then leadFamily cls allm r else 2
+    | .beneath => 1
+
+/-- `laterWhole` of Lemmas/PruneLemmas.lean (hypothesis `PruneFromH`), restated here because the
+driver links core-only modules. -/
+def laterWholeD (Q whole : Nat → Bool) : List Nat → Bool
+  | [] => true
+  | id :: r => if Q id then r.all (fun x => !Q x || whole x) else laterWholeD Q whole r
+
+def allMatchIdD (p : Profile) (q : Str → Bool) (id : Nat) : Bool :=
+  match p.findLocation id with
+  | some l => !l.lines.isEmpty && l.lines.all (lineMatches p q)
+  | none => false
+
+def firstLineMatchesD (p : Profile) (q : Str → Bool) (id : Nat) : Bool :=
+  match p.findLocation id with
+  | some l => (match l.lines with | ln :: _ => lineMatches p q ln | [] => false)
+  | none => false
+
 def viewsOf (p : Profile) : String := wrViews (p.samples.map (view p))
 
 def ops : List (String × (List String → String)) := [
@@ -25,10 +52,18 @@ def ops : List (String × (List String → String)) := [
     | none => "bad-op"),
   ("prune.model", fun ts => with2 rdDK Rd.profile ts fun (d, k) p =>
     Wr.render (Wr.profile (prune p d k))),
-  ("prune.unrepaired", fun ts => with2 rdDK Rd.profile ts fun (d, k) p =>
-    Wr.render (Wr.profile (pruneUnrepaired p d k))),
+  ("prune.repaired", fun ts => with2 rdDK Rd.profile ts fun (d, k) p =>
+    Wr.render (Wr.profile (pruneRepaired p d k))),
   ("prune.spec", fun ts => with2 rdDK Rd.profile ts fun (d, k) p =>
     wrViews (pruneSpec p (pruneName d k))),
+  ("prune.H", fun ts => with2 rdDK Rd.profile ts fun (d, k) p =>
+    let q := pruneName d k
+    " ".intercalate (p.samples.map fun s =>
+      toString (leadFamily (classOf p q) (allMatchIdD p q) s.locationIDs.reverse))),
+  ("prunefrom.H", fun ts => with2 rdTbl Rd.profile ts fun d p =>
+    let q := fun n => d (simplifyFunc n)
+    " ".intercalate (p.samples.map fun s =>
+      if laterWholeD (pruneFromId p q) (firstLineMatchesD p q) s.locationIDs then "0" else "1")),
   ("prunefrom.model", fun ts => with2 rdTbl Rd.profile ts fun d p =>
     Wr.render (Wr.profile (pruneFrom p d))),
   ("prunefrom.spec", fun ts => with2 rdTbl Rd.profile ts fun d p =>
